@@ -176,7 +176,10 @@ def _ghost_grid_dims():
     c = ctx()
     out = []
     for a, r in c.ghost.get(M + ":grid_coordinates", []):
-        out.append((r[0].shape[0], r[0].shape[1]))
+        if r[0].ndim == 2:
+            out.append((r[0].shape[0], r[0].shape[1]))
+        elif r[0].ndim == 1 and len(r) >= 2 and r[1].ndim == 1:
+            out.append((r[1].shape[0], r[0].shape[0]))  # meshgrid=False: (easting line, northing line)
     return out
 
 
